@@ -732,7 +732,11 @@ def corr_xml(check, desc, b, prelude_for, tag, tier):
                                 # what a receiver parses: the whole document, then its message element
                                 variants.append((payload(proto, parse_xml(etree.tostring(t2))), what))
                         for el, what in variants:
-                            for soft in ((False, True) if rng.random() < 0.3 else (False,)):
+                            # validator='soft' after a retarget to a primitive consults the nillable of whichever
+                            # customised variant of that primitive the interface registered first: not modelled,
+                            # such documents are run with validator=None only
+                            softs = (False, True) if (rng.random() < 0.3 and not what.startswith('xsd marker')) else (False,)
+                            for soft in softs:
                                 a2 = soft_app if soft else app
                                 msgcls = a2._c16_classes[m['in']]
                                 d = observe(a2.in_protocol.from_element, FakeCtx(a2), msgcls, el)
